@@ -7,6 +7,7 @@ import (
 	"strconv"
 	"strings"
 	"time"
+	"unicode"
 )
 
 // gen generates type and value descriptions. It never touches scriggo.
@@ -23,9 +24,9 @@ type gen struct {
 var leafKinds = []string{"bool", "int", "int8", "int16", "int32", "int64", "uint", "uint8", "uint16", "uint32", "uint64", "uintptr",
 	"float32", "float64", "string"}
 
-var namedLeaf = []string{"MyInt", "MyInt8", "MyUint16", "MyFloat", "MyFloat32", "MyString", "MyBool", "MyBytes", "MyInts", "MyStrMap", "MyArr", "MyU8"}
+var namedLeaf = []string{"MyInt", "MyInt8", "MyUint16", "MyFloat", "MyFloat32", "MyString", "MyBool", "MyBytes", "MyInts", "MyStrMap", "MyArr", "MyU8", "JSer", "JSer"}
 
-var namedStructs = []string{"Inner", "Unexp", "Tagged", "FirstOmit", "Emb", "EmbPtr", "EmbTagged", "EmbNonStruct", "EmbUnexp", "Node", "Times", "Anys", "Mixed"}
+var namedStructs = []string{"Inner", "Unexp", "Tagged", "FirstOmit", "Emb", "EmbPtr", "EmbTagged", "EmbNonStruct", "EmbUnexp", "Node", "Times", "Anys", "Mixed", "Opts"}
 
 // map key types accepted by checkShowJS/checkShowJSON: string and Bool..Complex128 kinds.
 // (uintptr keys are left out: the renderer's toString lacks the case, a defect owned by C09.)
@@ -36,6 +37,25 @@ var fieldNames = []string{"A", "B", "Cc", "D1", "E_x", "Ünï", "Ff", "G", "Hh",
 
 // valid names for encoding/json (letters, digits and !#$%&()*+-./:;<=>?@[]^_{|}~ and space)
 var tagNames = []string{"a", "b", "A", "snake_case", "with space", "ünï", "a.b", "$x", "<t>", "a&b", "0", "10", "x-y", "__proto__", "constructor", "c", "d", "e"}
+
+// names that encoding/json does not accept in a tag (isValidTag): it falls back to the Go field name.
+// They are written here as they appear inside the Go-quoted tag value.
+var invalidTagNames = []string{`x\\y`, `a'b`, `q\"r`, "caf\u00e9\u2028", `tab\tname`}
+
+// validTagName mirrors encoding/json's isValidTag.
+func validTagName(s string) bool {
+	if s == "" {
+		return false
+	}
+	for _, c := range s {
+		switch {
+		case strings.ContainsRune("!#$%&()*+-./:;<=>?@[]^_{|}~ ", c):
+		case !unicode.IsLetter(c) && !unicode.IsDigit(c):
+			return false
+		}
+	}
+	return true
+}
 
 func pick[T any](r *rand.Rand, l []T) T { return l[r.Intn(len(l))] }
 
@@ -138,31 +158,49 @@ func (g *gen) structType(depth int) TDesc {
 				}
 			}
 			switch n := r.Intn(100); {
-			case n < 30:
-			case n < 45:
+			case n < 26:
+			case n < 38:
 				f.Tag = `json:"` + tn + `"`
-			case n < 65:
+			case n < 54:
 				f.Tag = `json:"` + tn + `,omitempty"`
-			case n < 75:
+			case n < 60:
 				f.Tag = `json:",omitempty"`
-			case n < 80:
+			case n < 64:
 				f.Tag = `json:"-"`
-			case n < 84:
+			case n < 67:
 				f.Tag = `json:"-,"`
-			case n < 88:
+			case n < 70:
 				f.Tag = `json:"` + tn + `,foo,omitempty"`
-			case n < 92:
+			case n < 73:
 				f.Tag = `xml:"x,attr" json:"` + tn + `"`
-			case n < 96:
+			case n < 76:
 				f.Tag = `json:"` + tn + `,omitemptyx"`
-			default:
+			case n < 79:
 				f.Tag = `yaml:"y"`
+			case n < 86:
+				// the string option (quotes scalars; ignored by encoding/json for other kinds)
+				f.Tag = `json:"` + tn + pick(r, []string{`,string"`, `,string"`, `,omitempty,string"`, `,string,omitzero"`})
+			case n < 94:
+				// the omitzero option (Go 1.24)
+				f.Tag = `json:"` + pick(r, []string{tn, tn, ""}) + pick(r, []string{`,omitzero"`, `,omitzero"`, `,omitempty,omitzero"`, `,omitzero,foo"`})
+			default:
+				// a name that is not valid for encoding/json, which then uses the Go field name
+				f.Tag = `json:"` + pick(r, invalidTagNames) + pick(r, []string{`"`, `"`, `,omitempty"`})
 			}
 		}
+		verbatim := ""
 		if tag := reflect.StructTag(f.Tag).Get("json"); tag != "" && tag != "-" {
 			if n, _, _ := strings.Cut(tag, ","); n != "" {
-				eff = n
+				if validTagName(n) {
+					eff = n
+				} else {
+					verbatim = n // scriggo may use it as it is: reserve both names
+				}
 			}
+		}
+		if verbatim != "" && used[verbatim] {
+			f.Tag = ""
+			verbatim = ""
 		}
 		if used[eff] && reflect.StructTag(f.Tag).Get("json") != "-" {
 			// name clash: drop the tag and, if the Go name clashes too, the field
@@ -177,6 +215,9 @@ func (g *gen) structType(depth int) TDesc {
 			g.featEmbedded = true
 		}
 		used[eff] = true
+		if verbatim != "" {
+			used[verbatim] = true
+		}
 		fs = append(fs, f)
 	}
 	return TDesc{K: "struct", F: fs}
